@@ -32,7 +32,8 @@ EXPLANATION = (
     "the matching ParkGuard(s), guards are created and destroyed under syncMutex, the flush is covered by a FlushGuard, teardown sets the "
     "fence before notifying and waits for all three counters; R5 closing the command queue, draining it and closing the wake-up "
     "descriptor are one critical section, as are test/push/wake-up in enqueue, and every queued promise is fulfilled on every path; R6 "
-    "I/O-thread guards on stop/addListener; R7 no Session* is dereferenced after a call that may free it without a re-lookup (typestate), "
+    "I/O-thread guards on stop/addListener, and every return of stop() is behind this caller's join of the I/O thread or a wait for the caller that is joining it "
+    "(only a call on the I/O thread itself, or nothing to join, is let through); R7 no Session* is dereferenced after a call that may free it without a re-lookup (typestate), "
     "and ~Transport touches nothing after handing itself to the engine; R8 engine callbacks are invoked only on I/O-confined paths.")
 NOT_DECIDED = ["absence of deadlock beyond lock-order acyclicity (the join-versus-callback ownership argument is about shared_ptr counts)",
                "'within a bounded time'", "data races on objects the tables do not list"]
@@ -564,6 +565,12 @@ def r6(ctx, r):
                          "through on the I/O thread itself" % (short(g.name), what), okdesc="%s: %s" % (short(g.name), what))
     if n_uses < 8:
         raise AnalysisBroken("only %d uses of the engines' _loop members found" % n_uses)
+
+
+    # every stop() caller — not only the one that wins the _running CAS — returns behind the I/O thread's end
+    for cls in (TCP, UDP):
+        st = fb.func(cls + "::stop", file_suffix=FILES[cls])
+        common.stop_waits_for_worker(r, st, last(cls) + "::stop()", lambda e, cls=cls: field_of(e.node.get("obj")) == cls + "::_loop")
 
 
 # ------------------------------------------------------------------ R7 (typestate)
